@@ -27,6 +27,7 @@ EXPLANATION = (
     "packet is (id of type(m), m serialised) for the same m over the caller's messages in order. Byte-exact decodability for "
     "all payload values is not decided."
     " Added: every store to the writer slot is the transport's write or None; the bytes handed to _write_bytes are never rebound."
+    ' Also: outside the frame helpers exactly one call site reaches EncryptCipher.encrypt; a batch walked more than once is declared re-iterable; an encoder not in a recognised loop form is rejected.'
 )
 ASSUMPTIONS = ["bytes(), b''.join and struct.Struct('<LQ') have their documented semantics", "the AEAD primitive is ChaCha20-Poly1305 as provided by the library"]
 
